@@ -348,7 +348,7 @@ struct Harness
                 report(pm(C02), "data-range",
                        "slot" + std::to_string(s) + " data_end-data_begin exceeds memory_consumption");
             }
-            if (n > 0 && !blk)
+            if (n > 0 && !blk && de != db)  // elements of zero bytes (all fixed sizes 0) need no memory at all
             {
                 report(pm(C02, C07), "not-in-live-block", "slot" + std::to_string(s) + " data_begin");
                 return;
